@@ -213,11 +213,16 @@ class Registry:
         self.lemmas: T.Dict[str, Lemma] = {}
         self.specs: T.Dict[str, 'SpecFn'] = {}
         self.consts: T.Dict[str, T.Any] = {}
+        self.customs: T.Dict[str, T.Any] = {}      # name -> (prop, generator(engine) -> [Obligation], note)
 
     def contract(self, *a, **k):
         c = Contract(*a, **k)
         self.contracts[c.key] = c
         return c
+
+    def custom(self, prop, name, gen, note=''):
+        """obligations produced by a sidecar generator from the live code (tables, ASTs), discharged like any other"""
+        self.customs[name] = (prop, gen, note)
 
     def lookup(self, file, qual):
         """the contract callers see (the main variant)"""
